@@ -259,7 +259,7 @@ func c17Binary(bin string, it c17Item) (sig, detail string) {
 			}
 		}
 		if err != nil {
-			return "harness:cannot-run-binary", err.Error()
+			return binarySig(err, "read"), fmt.Sprintf("stdin %q, %d read() calls in %s mode: %v", clipStr(stdin, 60), spec.Reads, spec.Mode, err)
 		}
 		if strings.Contains(out, "panic:") || strings.Contains(out, "fatal error:") {
 			return "binary-abort:read", clipStr(out, 300)
